@@ -2,6 +2,9 @@ import SpoxModel.Lemmas.Tensor
 import SpoxModel.Lemmas.Attr
 import SpoxModel.Lemmas.Float
 import SpoxModel.Model.Embed
+import SpoxModel.Model.AttrSite
+import SpoxModel.Model.AttrRef
+import SpoxModel.Generated.AttrSites
 /-!
 # C10 — constants and attributes are embedded exactly and captured at the call
 
@@ -751,5 +754,170 @@ theorem captured_at_call_ast (e : Entry) (he : e ∈ Generated.CaptureTable.tabl
 /-- Non-vacuity: a real mutation history against a copied array and a frozen list of Vars. -/
 example : observe (mutate ⟨fun _ => [1, 2, 3], fun _ => []⟩ [.setFlat 0 [9], .setFlat 0 []])
     (capture .copy ⟨fun _ => [1, 2, 3], fun _ => []⟩ (.flat 0)) = [[1, 2, 3]] := by decide
+
+/-! ## Part 6 (round 6): every attribute argument of every shipped constructor; iterables that come once -/
+section Sites
+open AttrSite
+
+/-- A single complete pass stores exactly the items of the caller's iterable — whether it can be iterated again
+    (list, tuple, array, range, dict view) or hands its items out once (generator, iterator, map, zip). -/
+theorem single_pass_exact {α : Type} (s : Src α) : stored [.full] s = s.items := rfl
+
+/-- Why lists never show the fault: over a re-iterable source any number of earlier passes is harmless. -/
+theorem reiterable_immune {α : Type} (ps : List Pass) (s : Src α) (h : s.oneShot = false) :
+    stored (ps ++ [.full]) s = s.items := by
+  induction ps generalizing s with
+  | nil => rfl
+  | cons p rest ih =>
+    have hp : (s.pass p).2 = s := by cases p <;> simp [Src.pass, h]
+    cases rest with
+    | nil =>
+      show stored [.full] (s.pass p).2 = s.items
+      rw [hp]; rfl
+    | cons q r =>
+      show stored (q :: (r ++ [.full])) (s.pass p).2 = s.items
+      rw [hp]; exact ih s h
+
+/-- The round-5 fault: a pre-pass over a one-shot iterable leaves nothing for the conversion … -/
+theorem prepass_loses_all {α : Type} (xs : List α) : stored [.full, .full] (⟨xs, true⟩ : Src α) = [] := rfl
+
+/-- … and a probe of the first item loses that item. -/
+theorem probe_loses_first {α : Type} (x : α) (xs : List α) :
+    stored [.upto 1, .full] (⟨x :: xs, true⟩ : Src α) = xs := by
+  simp [stored, Src.pass]
+
+/-- Generated obligation (observed on every run with an instrumented iterable, all four list classes through
+    both entry points, and the variadic input field): exactly one complete pass over the caller's object;
+    and from the source text: the caller's `value` is read at most once on every path. -/
+theorem generated_single_pass :
+    (∀ r ∈ Generated.AttrSites.iterPasses, r.passes = [.full]) ∧
+    Generated.AttrSites.iterPasses.length ≥ 9 ∧
+    (∀ p ∈ Generated.AttrSites.callerLoads, p.2 ≤ 1) ∧ Generated.AttrSites.callerLoads.length ≥ 2 := by decide
+
+/-- **List attributes from any iterable.** For every list-attribute entry point of the generated table and every
+    iterable — one-shot or not — the stored tuple is exactly the items the iterable had at the call. -/
+theorem list_attr_any_iterable {α : Type} (r : IterRow) (hr : r ∈ Generated.AttrSites.iterPasses) (s : Src α) :
+    stored r.passes s = s.items := by
+  rw [generated_single_pass.1 r hr]; rfl
+
+def shapeOK (s : Shape) : Bool :=
+  (Attr.Cls.ofName? s.cls).isSome && s.sameName && (s.required → s.form == .direct) &&
+  Generated.CaptureTable.table.any (fun e => e.site == s.captureSite && e.ok)
+
+/-- **Every attribute argument of every shipped constructor** (5 × ai.onnx, 3 × ai.onnx.ml; regenerated from the
+    source on every run and cross-checked with the imported modules): it is built by one of the eleven `Attr*`
+    classes, directly or through `maybe`, from the constructor parameter of the same name under the ONNX name; a
+    required attribute is never optionalised; the capture-table row that covers it passes; no parameter is wrapped,
+    pre-iterated or read twice. -/
+theorem generated_attr_sites_ok :
+    Generated.AttrSites.irregular = [] ∧ Generated.AttrSites.multiUse = [] ∧
+    Generated.AttrSites.liveMismatches = [] ∧
+    (∀ s ∈ Generated.AttrSites.shapes, shapeOK s = true) ∧
+    Generated.AttrSites.perModule.length = 8 ∧ (∀ p ∈ Generated.AttrSites.perModule, p.2 > 0) := by decide
+
+/-- Hence the captured-at-call theorem applies to every attribute argument of every shipped constructor. -/
+theorem every_constructor_attr_captured (s : Shape) (hs : s ∈ Generated.AttrSites.shapes) :
+    ∃ e ∈ Generated.CaptureTable.table, e.site = s.captureSite ∧
+      ∀ (a : Arg) (_ : a.kind = e.kind) (h : Heap) (ms : List Mut),
+        observe (mutate h ms) (capture e.observed h a) = observe h (capture e.observed h a) := by
+  have h := generated_attr_sites_ok.2.2.2.1 s hs
+  simp only [shapeOK, Bool.and_eq_true, List.any_eq_true, beq_iff_eq] at h
+  obtain ⟨e, he, hsite, hok⟩ := h.2
+  refine ⟨e, he, hsite, fun a hk hp ms => ?_⟩
+  simp only [Entry.ok, Bool.and_eq_true] at hok
+  exact captured e.observed a (by rw [hk]; exact hok.1) hp ms
+
+/-- Non-vacuity: a generator of three items through a single pass, through a pre-pass, and a list through a pre-pass. -/
+example : stored [.full] (⟨[3, 1, 2], true⟩ : Src Nat) = [3, 1, 2] := rfl
+example : stored [.full, .full] (⟨[3, 1, 2], true⟩ : Src Nat) = [] := rfl
+example : stored [.full, .full] (⟨[3, 1, 2], false⟩ : Src Nat) = [3, 1, 2] := rfl
+example : stored [.upto 1, .full] (⟨[3, 1, 2], true⟩ : Src Nat) = [1, 2] := rfl
+
+end Sites
+
+/-! ## Part 7 (round 6b): attribute references (`_Ref`) -/
+section Refs
+open AttrRef
+
+/-- The value of a reference chain of any depth is the stored value of the concrete attribute at its end. -/
+theorem ref_value_is_root (c : Cls) (n outer rn : String) (t : A) : (A.ref c n t outer rn).value = t.value := rfl
+
+/-- **A reference appears under the reference's name, names the outer attribute, and carries the ONNX type of its
+    class** — for every class with the generic `_validate`, every target (itself possibly a reference). -/
+theorem ref_proto_exact (q : Bool) (c : Cls) (name outer rn : String) (t a : A)
+    (hc : c ≠ .dtype) (hg : c ≠ .graph) (h : constructRef q c name t outer rn = .ok a) :
+    a.toOnnx = ⟨rn, some outer, kindOf c, none⟩ ∧ a.value = t.value ∧ a.cls = c ∧ a.name = name := by
+  cases c <;> simp only [constructRef, ne_eq, not_true_eq_false, reduceCtorEq, not_false_eq_true] at hc hg h ⊢ <;>
+    (split at h
+     · simp at h
+     · rename_i hty
+       simp only [Decidable.not_not] at hty
+       injection h with h; subst h
+       simp [A.toOnnx, A.value, A.cls, A.name, hty])
+
+/-- A reference to an attribute of another ONNX type is refused with TypeError at the call. -/
+theorem ref_wrong_kind_typeerror (q : Bool) (c : Cls) (name outer rn : String) (t : A)
+    (hc : c ≠ .dtype) (hg : c ≠ .graph) (hty : t.protoType ≠ kindOf c) :
+    constructRef q c name t outer rn = .error .typeError := by
+  cases c <;> simp_all [constructRef]
+
+/-- `deref()` of a concrete attribute is the attribute; of a reference it is the constructor of the holder's class on
+    the dereferenced value under the holder's name — hence (by `attr_kind_exact`) named and typed like the holder. -/
+theorem deref_conc (q : Bool) (c : Cls) (n : String) (s : PyVal) (p : AProto) :
+    deref q (.conc c n s p) = .ok (.conc c n s p) := rfl
+
+theorem deref_ref_exact (q : Bool) (c : Cls) (n outer rn : String) (t a : A)
+    (h : deref q (.ref c n t outer rn) = .ok a) :
+    ∃ sv p, a = .conc c n sv p ∧ construct q c n t.value = .ok (sv, p) ∧ p.name = n ∧ p.type = specKind c := by
+  simp only [deref, mk] at h
+  split at h
+  · rename_i sv p hcons
+    injection h with h
+    exact ⟨sv, p, h.symm, hcons, attr_kind_exact q c n t.value sv p hcons⟩
+  · simp at h
+
+/-- Generated obligation (observed on every run): all four list classes keep a reference handed to the constructor
+    AND to `maybe` (the optional attributes of the operator constructors) — `maybe` is then `constructRef` too. -/
+theorem generated_list_refs_kept :
+    (∀ r ∈ Generated.AttrSites.keepsRef, r.2.2 = true) ∧ Generated.AttrSites.keepsRef.length ≥ 8 := by decide
+
+/-- Non-vacuity: a chain of two references to an INTS attribute; a FLOAT reference to it is refused. -/
+example : (show Except Err _ from do
+    let r ← mk true .int64s "axes" (.seq [.int 1, .int 2])
+    let a ← constructRef true .int64s "perm" r "axes" "perm"
+    let b ← constructRef true .int64s "x" a "perm" "x"
+    pure (b.toOnnx, b.depth, (constructRef true .float32 "y" a "perm" "y").toOption.isNone)).toOption =
+    some (⟨"x", some "perm", INTS, none⟩, 2, true) := by decide
+
+end Refs
+
+/-! ## Part 8 (round 6b): the way back (`tensor_type_to_dtype`) and dtype spellings -/
+section Reverse
+
+/-- `tensor_type_to_dtype` (executed on this run for every enum 0..31) is the ONNX table read backwards. -/
+theorem tensor_type_to_dtype_exact : ∀ e, e < 32 → dtypeOfEnum e = onnxDType e := by decide
+
+/-- Element type → enum → element type is the identity (what `Var.type` reads back is what was embedded) … -/
+theorem type_roundtrip (d : DType) : dtypeOfEnum (enumOf d) = some d := by cases d <;> rfl
+
+/-- … and enum → element type → enum too, for every enum 0..31. -/
+theorem type_roundtrip_inv :
+    ∀ e ∈ List.range 32, (dtypeOfEnum e).all (fun d => enumOf d == e) = true := by decide
+
+/-- The tensor spox embeds for an array reads back - through spox's own `tensor_type_to_dtype` - as the array's
+    element type and shape. -/
+theorem embedded_type_reads_back (q : Bool) (a : Arr) (name : String) (t : TProto)
+    (h : fromArray q a name = some t) : dtypeOfEnum t.dataType = some a.dtype ∧ t.dims = a.shape := by
+  obtain ⟨d, shape, words, strs⟩ := a
+  cases d <;>
+    simp only [fromArray, enumOf, onnxDType, fieldOf, ne_eq, not_true_eq_false, if_false,
+      Option.some.injEq] at h <;> subst h <;> exact ⟨rfl, rfl⟩
+
+/-- Every spelling of an element type (Python builtins, C aliases, type codes, byte orders, string widths, an array's
+    `.dtype`) is normalised to the enum of its canonical element type (executed on this run). -/
+theorem generated_aliases_ok :
+    (∀ r ∈ aliases, r.2.2 = enumOf r.2.1) ∧ aliases.length ≥ 30 := by decide
+
+end Reverse
 
 end C10
